@@ -283,6 +283,28 @@ CLAIMED = {
                      "library's forward pipeline",
         "design_ref": "DESIGN.md section 4 (C02)",
     },
+    "C07": {
+        "text": "PARTIAL, by design. RadonRight.tla decides the exact sub-domain: at projection angles 0/90/180 degrees "
+                "the Radon transform and the unfiltered back-projection are integer arithmetic; the model is a step-wise "
+                "pipeline (Mask, Project per angle, BackProject per angle, Finish) written from scikit-image's conventions "
+                "(disc mask, rotation about N//2, zero outside, scale pi/2A symbolic). TLC checks ZeroDegColumnSums (the "
+                "property's column-sum clause), MassKept, Adjoint and AngleOnly for N = 3..7, 24 images, all angle sequences "
+                "of length <= 3, and rejects the pinned tree's mirrored sampling grid. Every behaviour is replayed into "
+                "radon_torch / iradon_torch single, batched and for the sum of two images: sinograms and reconstructions "
+                "must equal the model's integers (x pi/2A), which decides geometry conventions, linearity and batch = "
+                "per-image on that sub-domain. NOT decided by the model: oblique angles and the Fourier filters. For "
+                "those the check compares directly with the reference the property names (skimage.transform.radon / "
+                "iradon / _get_fourier_filter) at enumerated sizes (odd/even, incl. sizes whose padded FFT length "
+                "differs), 8 angle sets, 3 image kinds, 6 filters, circle / output-size options, and checks linearity "
+                "and batching relationally - a differential comparison, recorded as such in the evidence.",
+        "note": "The differential part is sampling against a floating-point reference (scikit-image 0.26), tolerance 3e-4 "
+                "relative; circle=False / enlarged output grids are compared at generic oblique angles only (at right angles "
+                "grid points fall exactly on the last sinogram sample and the reference itself is ill-conditioned there). "
+                "float32 inputs only (grid_sample rejects float64 images against the float32 grid).",
+        "technique": "TLA+ exact right-angle model checked by TLC, behaviours replayed into the implementation; "
+                     "supplementary differential comparison with scikit-image outside the model's reach",
+        "design_ref": "DESIGN.md section 4 (C07)",
+    },
     "C20": {
         "text": "NormOrder.tla models display normalisation ordinally and in exact rationals: arrays (length 2..4) "
                 "over small integers and the tokens NaN/+inf/-inf with at least two distinct finite values; "
